@@ -280,3 +280,13 @@ func catch(f func()) (panicked bool, val any) {
 }
 
 func jsonUnmarshal(b []byte, v any) error { return json.Unmarshal(b, v) }
+
+func splitList(s string) []string {
+	var out []string
+	for _, x := range strings.Split(s, ",") {
+		if x != "" {
+			out = append(out, x)
+		}
+	}
+	return out
+}
